@@ -249,6 +249,18 @@ def check_sort(prog: Program, res: Result) -> None:
         ok = isinstance(nxt, ast.Assign) and isinstance(nxt.value, ast.Subscript) and norm(nxt.value.value) == name and isinstance(nxt.value.slice, ast.Slice) \
             and nxt.value.slice.lower is None and "max_instances" in norm(nxt.value.slice.upper) and norm(nxt.targets[0]) == name
         res.ob(R, ok, fi.qualname, "slice [:max_instances] of the sorted list", "the max_instances cut is not a prefix slice of the sorted list", f"{fi.module.relpath}:{c.lineno}")
+        # what is sorted is the COMPLETE list of the frame's instances: the loop that fills it visits every grouped
+        # instance (no break / return; `continue` only for an all-NaN instance)
+        srt_arg = c.args[0] if c.args else None
+        builds = astq.list_builds(fi.node, norm(srt_arg)) if isinstance(srt_arg, ast.Name) else []
+        res.ob(R, len(builds) >= 1, fi.qualname, "the sorted list is built in this function", "cannot find where the sorted list is filled", f"{fi.module.relpath}:{c.lineno}")
+        for bd in builds:
+            lp_ = bd.gens[-1] if bd.gens else None
+            jumps = [j for j in ast.walk(lp_) if isinstance(j, (ast.Break, ast.Return))] if isinstance(lp_, ast.For) else []
+            cut_conds = [cnd for cnd in bd.conds if "max_instances" in norm(cnd)]
+            res.ob(R, not jumps and not cut_conds, fi.qualname, "every grouped instance enters the list that is sorted",
+                   "the instance loop stops (or filters) on max_instances BEFORE the sort: the instances kept are the first ones in grouping order, not the highest scoring",
+                   f"{fi.module.relpath}:{getattr(lp_, 'lineno', c.lineno)}")
         lf = [n for n in walk_function(fi.node) if isinstance(n, ast.Call) and norm(n.func) == "sio.LabeledFrame"]
         ok = len(lf) == 1 and any(k.arg == "instances" and norm(k.value) == name for k in lf[0].keywords) and lf[0].lineno > c.lineno
         res.ob(R, ok, fi.qualname, "the cut list is what the frame receives", "the labeled frame is not built from the cut list", f"{fi.module.relpath}:{c.lineno}")
